@@ -37,7 +37,9 @@ FD == [F1 |-> [args |-> <<"a">>, body |-> Node("ENUM", <<La>>)],
 Interps == <<
   [X1 |-> {1,2}, S1 |-> {<<1,1>>, <<1,2>>}, S2 |-> {{}, {1}}, C1 |-> {1,2,3}, A1 |-> TRUE],
   [X1 |-> {1},   S1 |-> {},                 S2 |-> {{1}},     C1 |-> {1,2}, A1 |-> TRUE],
-  [X1 |-> {1,2,3}, S1 |-> {<<2,1>>, <<3,3>>, <<1,2>>}, S2 |-> {{1,2}, {2,3}, {3}}, C1 |-> {1}, A1 |-> TRUE] >>
+  [X1 |-> {1,2,3}, S1 |-> {<<2,1>>, <<3,3>>, <<1,2>>}, S2 |-> {{1,2}, {2,3}, {3}}, C1 |-> {1}, A1 |-> TRUE],
+  \* a relation whose images shrink step by step ({1,2,3} -> {2,3} -> {3} -> {}): recursions that stabilise only after several steps
+  [X1 |-> {1,2,3}, S1 |-> {<<1,2>>, <<2,3>>}, S2 |-> {{1}, {2,3}}, C1 |-> {1,2}, A1 |-> TRUE] >>
 
 RECURSIVE EncU(_, _)
 \* wire encoding with sets in arbitrary order (the harness canonicalises)
@@ -73,7 +75,10 @@ SeedFilter ==
   \cup {Idx("FILTER", ix, <<p, q, a>>) : ix \in {<<1,2>>, <<2,1>>, <<1,1>>, <<1>>, <<1,2,1>>}, p \in {Glob("X1"), Glob("C1"), Empty, One}, q \in {Glob("X1"), Glob("C1"), Empty, One}, a \in {Glob("S1"), X1xX1, X1xC1}}
 RecBodies == {Node("UNION", <<La, Glob("X1")>>), Node("SET_MINUS", <<La, La>>), Node("UNION", <<La, One>>), Node("UNION", <<La, Glob("S1")>>),
               Node("PLUS", <<La, IntLit(1)>>), Node("ENUM", <<La>>), La, Node("UNION", <<La, Node("ENUM", <<Glob("X1")>>)>>),
-              Node("INTERSECTION", <<La, Glob("X1")>>), Node("UNION", <<La, Idx("BIGPR", <<1>>, <<La>>)>>)}
+              Node("INTERSECTION", <<La, Glob("X1")>>), Node("UNION", <<La, Idx("BIGPR", <<1>>, <<La>>)>>),
+              \* the image of a under the relation S1 (not inflationary: may need several steps to stabilise)
+              Idx("BIGPR", <<2>>, <<Idx("FILTER", <<1>>, <<La, Glob("S1")>>)>>),
+              Node("INTERSECTION", <<La, Idx("BIGPR", <<2>>, <<Idx("FILTER", <<1>>, <<La, Glob("S1")>>)>>)>>)}
 RecConds == {Node("LESSER", <<Node("CARD", <<La>>), IntLit(2)>>), Node("EQUAL", <<IntLit(1), IntLit(1)>>), Node("LESSER", <<La, IntLit(3)>>), Node("NOTEQUAL", <<La, Glob("X1")>>)}
 SeedRec == {Node("REC_SHORT", <<La, i, b>>) : i \in D0, b \in RecBodies}
       \cup {Node("REC_FULL", <<La, i, cnd, b>>) : i \in {Glob("X1"), Empty, IntLit(1), Glob("S2")}, cnd \in RecConds, b \in RecBodies}
@@ -128,7 +133,11 @@ LazyPairs == {<<Node("BOOLEAN", <<Pr1S1>>), Node("ENUM", <<Glob("X1")>>)>>, <<No
               <<Node("BOOLEAN", <<Diag>>), Glob("S2")>>, <<Node("BOOLEAN", <<Glob("X1")>>), Node("BOOLEAN", <<Pr1S1>>)>>,
               <<Node("DECART", <<Pr1S1, Pr2S1>>), Glob("S1")>>, <<Node("DECART", <<Diag, Glob("X1")>>), Glob("S1")>>,
               <<X1xX1, Glob("S1")>>, <<Node("DECART", <<Pr1S1, Pr1S1>>), Node("DECART", <<Pr2S1, Diag>>)>>,
-              <<Node("BOOLEAN", <<Node("SET_MINUS", <<Glob("X1"), Glob("X1")>>)>>), Node("ENUM", <<Glob("X1")>>)>>}
+              <<Node("BOOLEAN", <<Node("SET_MINUS", <<Glob("X1"), Glob("X1")>>)>>), Node("ENUM", <<Glob("X1")>>)>>,
+              \* a lazy product / power set against the extensionally equal enumerated set
+              <<X1xX1, Node("DECLARATIVE", <<La, X1xX1, Node("EQUAL", <<La, La>>)>>)>>,
+              <<X1xC1, Node("DECLARATIVE", <<La, X1xC1, Node("EQUAL", <<La, La>>)>>)>>,
+              <<Node("BOOLEAN", <<Glob("X1")>>), Node("DECLARATIVE", <<La, Node("BOOLEAN", <<Glob("X1")>>), Node("EQUAL", <<La, La>>)>>)>>}
 SeedLazy == {Node(o, <<p[1], p[2]>>) : o \in SetBin \cup SubPred \cup EqPred, p \in LazyPairs}
        \cup {Node(o, <<p[2], p[1]>>) : o \in SetBin \cup SubPred \cup EqPred, p \in LazyPairs}
        \cup {Node("CARD", <<Node(o, <<p[1], p[2]>>)>>) : o \in SetBin, p \in LazyPairs}
